@@ -250,6 +250,49 @@ def check_doc(sh, key, term, width, stylename, style):
     judge(sh, sdocs, stream.getvalue(), style, stylename, case)
 
 
+def default_style_sequences(sh, quick):
+    """cpprint WITHOUT a style argument after the default style was switched (set_default_style / set_default_config(style=...)),
+    several times in one process: each output must be in the style that is the default at that moment"""
+    styles = dict(all_styles())
+    vals = [[1, 2.5, 'a\nb', b'x', None, {'k': (1,)}], prettyprinter.comment(['x', 1], 'note'), c17.gen_holder(V.rng_for('c16ds'))[0], {'key': [True, 1.5e22, 'text']}]
+    for i in range(40 if quick else 1500):
+        if not sh.mine(i):
+            continue
+        rng = V.rng_for('c16seq', sh.seed, i)
+        steps = [rng.choice(['light', 'dark', 'cfg-light', 'cfg-dark', 'class']) for _ in range(rng.randint(2, 6))]
+        for j, how in enumerate(steps):
+            if how == 'light':
+                prettyprinter.set_default_style('light')
+                want = pcolor.default_light_style
+            elif how == 'dark':
+                prettyprinter.set_default_style('dark')
+                want = pcolor.default_dark_style
+            elif how == 'cfg-light':
+                prettyprinter.set_default_config(style='light')
+                want = pcolor.default_light_style
+            elif how == 'cfg-dark':
+                prettyprinter.set_default_config(style='dark')
+                want = pcolor.default_dark_style
+            else:
+                name = rng.choice(sorted(styles))
+                prettyprinter.set_default_style(styles[name])
+                want = styles[name]
+            value = rng.choice(vals)
+            case = {'kind': 'default-style-sequence', 'i': i, 'seed': sh.seed, 'step': j, 'steps': steps[:j + 1]}
+            full = dict(prettyprinter.get_default_config())
+            sdocs = list(python_to_sdocs(value, **full))
+            stream = io.StringIO()
+            try:
+                prettyprinter.cpprint(value, stream=stream, end='')
+            except Exception as e:
+                sh.violation(classify_render_error(want, e), 'cpprint with the default style raised %r' % (e,), case)
+                continue
+            if judge(sh, sdocs, stream.getvalue(), want, 'default:' + how, case):
+                sh.counters['default-style outputs verified after a style switch'] += 1
+            sh.case(('defstyle', i, j))
+    prettyprinter.set_default_style('dark')
+
+
 def value_sources(sh, quick):
     seed = sh.seed
     n = 60 if quick else 2000
@@ -304,6 +347,7 @@ def run_shard(sh):
             for cfg in ({}, {'width': 10}):
                 check_value(sh, v, {'source': 'fixed', 'i': vi}, cfg, stylename, style)
                 sh.case(('fixed', vi, sorted(cfg.items()), stylename))
+    default_style_sequences(sh, quick)
     for key, term in doc_terms():
         idx += 1
         if not sh.mine(idx):
@@ -318,11 +362,11 @@ def run_shard(sh):
 
 
 def finalize(m):
-    for name in ('characters verified', 'SGR sequences decoded', 'streams verified', 'streams with >= 2 different tokens'):
+    for name in ('characters verified', 'SGR sequences decoded', 'streams verified', 'streams with >= 2 different tokens', 'default-style outputs verified after a style switch'):
         if not m.counters.get(name):
             m.inconclusive.append('monitor never reached: ' + name)
     nstyles = len(all_styles())
-    if len(m.sets.get('styles verified', ())) < nstyles and not any(v['key'].startswith('render-raised') for v in m.violations):
+    if len([x for x in m.sets.get('styles verified', ()) if not x.startswith('default:')]) < nstyles and not any(v['key'].startswith('render-raised') for v in m.violations):
         m.inconclusive.append('only %d of %d styles were verified' % (len(m.sets.get('styles verified', ())), nstyles))
     m.notes['styles installed'] = nstyles
     if m.counters.get('SGR sequences decoded', 0) == 0:
